@@ -105,6 +105,91 @@ func scripts() map[string]Script {
 				blk(time.Minute, fee),
 			}
 		},
+		// bucket-slash: one delegator has several pending undelegations from one validator in one queue bucket
+		// (same block) with amounts whose 5% are not whole; a double-sign slash then reduces them together, other
+		// delegators' entries and entries of another validator share the block; everything matures afterwards
+		"bucket-slash": func(g *Gen, c *Config) []Step {
+			c.Assets = []AssetSpec{
+				{Denom: "aaa", Weight: "0.5", WMin: "0", WMax: "10", TakeRate: "0", StartDelay: -int64(time.Hour), Mag: "1000000"},
+				{Denom: "bbb", Weight: "1", WMin: "0", WMax: "10", TakeRate: "0", StartDelay: -int64(time.Hour), Mag: "1000000"},
+			}
+			c.Fund = "1000000000"
+			c.SlashDouble = "0.05"
+			c.UnbondingNs = int64(time.Hour)
+			fee := "2000000stake"
+			return []Step{
+				{K: "delegate", A: 0, V: 1, Den: "aaa", Amt: "100000"},
+				{K: "delegate", A: 0, V: 1, Den: "bbb", Amt: "100000"},
+				{K: "delegate", A: 0, V: 2, Den: "aaa", Amt: "100000"},
+				{K: "delegate", A: 1, V: 1, Den: "aaa", Amt: "50000"},
+				blk(6*time.Second, fee),
+				{K: "undelegate", A: 0, V: 1, Den: "aaa", Amt: "333"},
+				{K: "undelegate", A: 0, V: 1, Den: "aaa", Amt: "333"},
+				{K: "undelegate", A: 0, V: 1, Den: "aaa", Amt: "19"},
+				{K: "undelegate", A: 0, V: 1, Den: "bbb", Amt: "777"},
+				{K: "undelegate", A: 0, V: 1, Den: "bbb", Amt: "1111"},
+				{K: "undelegate", A: 0, V: 2, Den: "aaa", Amt: "333"},
+				{K: "undelegate", A: 1, V: 1, Den: "aaa", Amt: "39"},
+				{K: "undelegate", A: 1, V: 1, Den: "aaa", Amt: "39"},
+				blk(6*time.Second, fee),
+				{K: "block", Block: &BlockSpec{DtNs: int64(6 * time.Second), Fees: fee, Evidence: []Evidence{{Val: 1, HeightBack: 1}}}},
+				blk(6*time.Second, fee),
+				blk(time.Hour, fee),
+				blk(6*time.Second, fee),
+			}
+		},
+		// full-slash-unbonding: pending undelegations are slashed with fraction 1 (legal; the evidence carries more
+		// power than the validator has now, so staking caps the effective fraction at exactly 1) down to zero and
+		// then mature; one more entry is created after the slash and matures later
+		"full-slash-unbonding": func(g *Gen, c *Config) []Step {
+			c.Assets = []AssetSpec{
+				{Denom: "aaa", Weight: "0.5", WMin: "0", WMax: "10", TakeRate: "0", StartDelay: -int64(time.Hour), Mag: "1000000"},
+				{Denom: "bbb", Weight: "1", WMin: "0", WMax: "10", TakeRate: "0.001", StartDelay: -int64(time.Hour), Mag: "1000000"},
+			}
+			c.Fund = "1000000000"
+			c.SlashDouble = "1"
+			c.UnbondingNs = int64(time.Hour)
+			fee := "2000000stake"
+			return []Step{
+				{K: "delegate", A: 0, V: 1, Den: "aaa", Amt: "100000"},
+				{K: "delegate", A: 1, V: 1, Den: "bbb", Amt: "70000"},
+				{K: "delegate", A: 1, V: 2, Den: "bbb", Amt: "70000"},
+				{K: "delegate", A: 2, V: 2, Den: "aaa", Amt: "50000"},
+				blk(6*time.Second, fee),
+				{K: "undelegate", A: 0, V: 1, Den: "aaa", Amt: "4000"},
+				{K: "undelegate", A: 1, V: 1, Den: "bbb", Amt: "500"},
+				{K: "undelegate", A: 1, V: 2, Den: "bbb", Amt: "600"},
+				blk(6*time.Second, fee),
+				{K: "undelegate", A: 0, V: 1, Den: "aaa", Amt: "1"},
+				blk(6*time.Second, fee),
+				{K: "block", Block: &BlockSpec{DtNs: int64(6 * time.Second), Fees: fee, Evidence: []Evidence{{Val: 1, HeightBack: 1, Power: 1000000}}}},
+				blk(6*time.Second, fee),
+				{K: "undelegate", A: 2, V: 2, Den: "aaa", Amt: "700"},
+				blk(time.Hour-30*time.Second, fee),
+				blk(6*time.Second, fee),
+				blk(6*time.Second, fee),
+				blk(time.Minute, fee),
+				blk(time.Hour, fee),
+				blk(6*time.Second, fee),
+			}
+		},
+		// donate-first: the very first thing that happens on the chain is a plain transfer to the module's custody
+		// address and to the rewards pool address, before the module has done anything
+		"donate-first": func(g *Gen, c *Config) []Step {
+			fee := "2000000stake"
+			d := c.Assets[0].Denom
+			return []Step{
+				{K: "donate", A: 0, Amt: "5" + d},
+				{K: "donate", A: 1, Amt: "7stake"},
+				blk(6*time.Second, fee),
+				{K: "delegate", A: 0, V: 1, Den: d, Amt: c.Assets[0].Mag},
+				{K: "ndelegate", A: 2, V: 2, Amt: "3000000"},
+				blk(6*time.Second, fee),
+				blk(6*time.Second, fee),
+				{K: "claim", A: 0, V: 1, Den: d},
+				blk(6*time.Second, fee),
+			}
+		},
 		// drain-and-refill: two assets on the same validators, non-integer share ratios after a slash, every
 		// delegator exits one asset completely (through different validators, leaving rounding dust behind),
 		// the asset's staked total returns to zero, then it is staked again
@@ -204,6 +289,33 @@ func scripts() map[string]Script {
 					Step{K: "gov_params", A: 1, Gov: spec(sg, "")},
 				)
 			}
+			// boundary values of the asset predicate, signed by the authority: take rate exactly 1 and just below,
+			// weight outside/at its range ends, negative values, range with min > max, rate 0
+			bnd := func(k string, f func(*GovSpec)) Step {
+				sp := spec("auth", "aaa")
+				if k == "gov_create" {
+					sp.Denom = "bnd"
+				}
+				f(sp)
+				sp.Boundary = true
+				return Step{K: k, A: 1, Gov: sp}
+			}
+			for _, k := range []string{"gov_update", "gov_create", "legacy_update"} {
+				st = append(st,
+					bnd(k, func(g *GovSpec) { g.Take = "1" }),
+					bnd(k, func(g *GovSpec) { g.Take = "1.000000000000000001" }),
+					bnd(k, func(g *GovSpec) { g.Take = "-0.000000000000000001" }),
+					bnd(k, func(g *GovSpec) { g.Weight = "5.000000000000000001" }),
+					bnd(k, func(g *GovSpec) { g.Weight = "0.099999999999999999" }),
+					bnd(k, func(g *GovSpec) { g.WMin, g.WMax = "5", "0.1" }),
+					bnd(k, func(g *GovSpec) { g.Weight = "-1" }),
+					bnd(k, func(g *GovSpec) { g.Rate = "0" }),
+					bnd(k, func(g *GovSpec) { g.Rate = "-1" }),
+				)
+				if k == "gov_create" {
+					st = append(st, Step{K: "gov_delete", A: 1, Gov: spec("auth", "bnd")})
+				}
+			}
 			st = append(st, blk(6*time.Second, "1000000stake"))
 			for _, nv := range []bool{false, true} {
 				a, b, d := spec("auth", "eee"), spec("auth", "eee"), spec("auth", "eee")
@@ -240,9 +352,10 @@ func checkDefs() map[string]*CheckDef {
 	defs := []*CheckDef{
 		{
 			Prop: "C01",
+			Scripts: []string{"bucket-slash"},
 			Runs: []ProfRun{{"core", 48, 900}, {"queue", 48, 900}, {"extreme", 24, 450}, {"native", 16, 300}},
 			Mons: func(r *Runner) []Monitor { return []Monitor{NewMonC01(r)} },
-			Required: []string{"C01.payout", "C01.take-rate", "C01.slash-with-unbonding", "C01.donation"},
+			Required: []string{"C01.payout", "C01.take-rate", "C01.slash-with-unbonding", "C01.slash-shared-bucket-fractional", "C01.donation"},
 			Rule: "seeded random histories (profiles core/extreme/native: user ops, slashes via real evidence/downtime, take-rate, donations, hostile block spacing); after every transaction, slash callback, end-block and begin-block the custody balance of every asset denom is compared with staked total + pending unbondings (+ donations, + stranded rewards of the recorded finding); a situation class = kind of step that touched custody (tx kind, payout, take-rate deduction, slash with pending unbonding, donation)",
 			Assumptions: commonAssumptions,
 		},
@@ -278,16 +391,16 @@ func checkDefs() map[string]*CheckDef {
 			Scripts: []string{"gov-table"},
 			Runs: []ProfRun{{"gov", 64, 1200}},
 			Mons: func(r *Runner) []Monitor { return []Monitor{NewMonC16(r)} },
-			Required: []string{"C16.gov_create/auth", "C16.gov_update/auth", "C16.gov_delete/auth", "C16.gov_params/auth", "C16.gov_update/actor", "C16.legacy_create", "C16.legacy_update", "C16.legacy_delete"},
+			Required: []string{"C16.gov_create/auth", "C16.gov_update/auth", "C16.gov_delete/auth", "C16.gov_params/auth", "C16.gov_update/actor", "C16.legacy_create", "C16.legacy_update", "C16.legacy_delete", "C16.boundary/gov_update/take=1", "C16.boundary/gov_create/take=1"},
 			Rule: "generated governance traffic: 4 messages and 3 legacy contents x signer in {authority, actor, module accounts, empty, malformed} x per-field values {nil, negative, 0, boundary, huge} x asset state {absent, empty, staked, decaying, warm-up}, interleaved with user operations; success implies signer = authority, failure implies byte-identical module store, stored-asset predicate after every step of every history; a situation class = (message kind, signer kind, asset state, accepted/rejected/panicked)",
 			Assumptions: commonAssumptions,
 		},
 		{
 			Prop: "C17",
-			Scripts: []string{"gov-table"},
+			Scripts: []string{"gov-table", "full-slash-unbonding", "donate-first"},
 			Runs: []ProfRun{{"gov", 64, 1200}, {"extreme", 24, 400}, {"time", 24, 400}},
 			Mons: func(r *Runner) []Monitor { return []Monitor{NewMonC17(r)} },
-			Required: []string{"C17.accepted.gov_params", "C17.accepted.gov_update", "C17.state/"},
+			Required: []string{"C17.accepted.gov_params", "C17.accepted.gov_update", "C17.state/", "C17.matured-zero-entry", "C17.donate-before-first-use"},
 			Rule: "every end-of-block of every history (profiles gov/extreme/time: configuration fuzz restricted to values the module's own handlers accepted on the main line, slashes, jailing, dust and drained assets, gaps from 1 ns to thousands of intervals) must return without error or panic; a situation class = accepted parameter class (rate/interval/take-rate classes) and end-block state class (pending unbondings/redelegations, flag, jailed validator, claim-interval class)",
 			Assumptions: commonAssumptions,
 		},
@@ -307,9 +420,10 @@ func queueDefs() []*CheckDef {
 	return []*CheckDef{
 		{
 			Prop: "C02",
+			Scripts: []string{"full-slash-unbonding"},
 			Runs: []ProfRun{{"core", 64, 1200}, {"queue", 48, 900}},
 			Mons: func(r *Runner) []Monitor { return []Monitor{NewMonC02(r)} },
-			Required: []string{"C02.payout/", "C02.bucket/n3", "C02.bucket/n2/vals2", "C02.boundary/completion=blocktime-not-paid", "C02.boundary/completion=blocktime-1ns-paid", "C02.payout/slashed1"},
+			Required: []string{"C02.payout/", "C02.bucket/n3", "C02.bucket/n2/vals2", "C02.boundary/completion=blocktime-not-paid", "C02.boundary/completion=blocktime-1ns-paid", "C02.payout/slashed1", "C02.payout/zero-entry"},
 			Rule: "seeded random histories with bucket packing (few delegators repeating undelegations in one block across validators and denoms), deadline-sniping block times (completion-1ns, =, +1ns) and real slashes while entries are pending; a reference list of pending unbondings is kept from successful undelegations and the C07 slash rule; at every end-of-block the custody payouts in the event log and the delegators' balance deltas must equal the matured reference entries exactly (strictly-later rule), and the raw queue and per-validator index (independent decoder) must equal the reference afterwards; a situation class = bucket packing shape, payout with/without prior slash, boundary relation",
 			Assumptions: commonAssumptions,
 		},
